@@ -64,6 +64,31 @@ class SortedTable:
         return [Rat.atom("S[%s,%d]" % (tag, c)) for c in range(self.width)]
 
 
+class TableView:
+    """columns lo:hi of a sorted table (all rows)"""
+
+    def __init__(self, base, lo, hi):
+        self.base, self.lo, self.hi = base, lo, hi
+        self.n = base.n
+
+    def row(self, r):
+        return self.base.row(r)[self.lo:self.hi]
+
+
+class MappedTable:
+    """the rows of a sorted table (or of a view of it) multiplied by a constant matrix: row r is view.row(r) . M"""
+
+    def __init__(self, view, M):
+        self.view, self.M = view, M
+        self.n = view.n
+
+    def row(self, r):
+        v = self.view.row(r)
+        if len(v) != len(self.M):
+            raise AnalysisError("reduce_cell: product of table rows of width %d with a matrix of %d rows" % (len(v), len(self.M)))
+        return [sum((v[c] * self.M[c][k] for c in range(len(v))), Rat.const(0)) for k in range(len(self.M[0]))]
+
+
 class RoundingFilter(Exception):
     def __init__(self, text, node):
         Exception.__init__(self, text)
@@ -110,15 +135,23 @@ class ReduceEval(ObjEvaluator):
                 tag = "norm#%d" % len(self.norm_of)
                 self.norm_of[tag] = vec
                 return Rat.atom(tag)
+        if name == "linalg.norm" and len(args) == 1 and set(kwargs) == {"axis"} and const_int(kwargs["axis"]) in (1, -1):
+            V = args[0] if isinstance(args[0], Arr) else materialise(args[0])
+            if V is not None and len(V.shape) == 2:
+                return Arr([self._np_call("linalg.norm", [Arr(list(r))], {}, node) for r in V.data])
+        if name == "dot" and len(args) == 2 and isinstance(args[0], (SortedTable, TableView, MappedTable)):
+            M = args[1] if isinstance(args[1], Arr) else materialise(args[1])
+            if M is None or len(M.shape) != 2:
+                raise AnalysisError("reduce_cell: product of the sorted table with something else than an explicit matrix (line %d)" % node.lineno)
+            view = args[0] if not isinstance(args[0], SortedTable) else TableView(args[0], 0, args[0].width)
+            if isinstance(view, MappedTable):
+                raise AnalysisError("reduce_cell: repeated product of the sorted table (line %d)" % node.lineno)
+            return MappedTable(view, [[scalar(x) for x in r] for r in M.data])
         if name == "argsort" and len(args) == 1 and not kwargs:
             K = args[0] if isinstance(args[0], Arr) else materialise(args[0])
             if K is None or len(K.shape) != 1:
                 raise AnalysisError("reduce_cell: argsort of a value that is not an explicit vector (line %d)" % node.lineno)
             return Perm([scalar(x) for x in K.data])
-        if name == "arange" and 1 <= len(args) <= 2 and not kwargs:
-            ints = [const_int(a) for a in args]
-            if all(i is not None for i in ints):
-                return Arr([Rat.const(i) for i in range(*ints)])
         if name in ("concatenate", "vstack") and len(args) == 1 and isinstance(args[0], (list, tuple)):
             parts = []
             for x in args[0]:
@@ -139,7 +172,7 @@ class ReduceEval(ObjEvaluator):
         return ObjEvaluator._np_call(self, name, args, kwargs, node)
 
     def builtin(self, name, args, kwargs, node):
-        if name == "len" and args and isinstance(args[0], SortedTable):
+        if name == "len" and args and isinstance(args[0], (SortedTable, TableView, MappedTable)):
             return Rat.const(args[0].n)
         if name == "range" and any(const_int(a) is None for a in args):
             return ("symbolic-range", list(args))
@@ -162,6 +195,34 @@ class ReduceEval(ObjEvaluator):
                 self.table = SortedTable(rows, cols[-1] if cols else None, list(first.keys))
                 self.phase = "picking"
                 return self.table
+        def full_(e):
+            return isinstance(e, ast.Slice) and e.lower is None and e.upper is None and e.step is None
+        if isinstance(base, SortedTable) and len(elts) == 2 and full_(elts[0]) and isinstance(elts[1], ast.Slice) and elts[1].step is None:
+            lo = const_int(self.eval(elts[1].lower, env)) if elts[1].lower is not None else 0
+            hi = const_int(self.eval(elts[1].upper, env)) if elts[1].upper is not None else base.width
+            if lo is None or hi is None:
+                raise AnalysisError("reduce_cell: columns of the sorted table selected by a non-constant (line %d)" % node.lineno)
+            return TableView(base, lo, hi)
+        if isinstance(base, (TableView, MappedTable)):
+            r = self.eval(elts[0], env) if len(elts) in (1, 2) and not isinstance(elts[0], ast.Slice) else None
+            if r is None:
+                raise AnalysisError("reduce_cell: unsupported subscript of a table derived from the sorted one (line %d)" % node.lineno)
+            ri = const_int(r)
+            if ri is None:
+                a = single_atom(scalar(r)) if isinstance(r, Rat) else None
+                if a is None or not a.endswith("*"):
+                    raise AnalysisError("reduce_cell: derived table indexed by `%s` (line %d)" % (core.unparse(elts[0]), node.lineno))
+                row = base.row(a)
+            else:
+                if not (0 <= ri < base.n):
+                    raise AnalysisError("reduce_cell: row %d of the derived table (line %d)" % (ri, node.lineno))
+                row = base.row(ri)
+            if len(elts) == 1 or full_(elts[1]):
+                return Arr(row)
+            ci = const_int(self.eval(elts[1], env)) if not isinstance(elts[1], ast.Slice) else None
+            if ci is not None:
+                return row[ci]
+            raise AnalysisError("reduce_cell: unsupported subscript of a table derived from the sorted one (line %d)" % node.lineno)
         if isinstance(base, SortedTable):
             if not elts:
                 raise AnalysisError("reduce_cell: empty subscript")
@@ -380,7 +441,7 @@ def run(ctx):
                         okr = tag in ev.norm_of and veq(ev.norm_of[tag], want)
             if not okr and badrow is None:
                 badrow = [N.short(x, 40) for x in r]
-            if okr:
+            if all(i is not None for i in ints):
                 triples.add(tuple(ints))
         ctx.check(badrow is None, "C18:vectors:%s.combination" % short,
                   "lattice vectors are not all formed as dot(a_mat, integer triple): a table row is %s, not [i, j, k, |A.(i,j,k)|]" % badrow,
